@@ -375,16 +375,27 @@ class CryptographyEngine(api.CryptographicEngine):
                 hashing_algorithm=hashing_algorithm
             )
         else:
-            return self._encrypt_symmetric(
-                encryption_algorithm,
-                encryption_key,
-                plain_text,
-                cipher_mode=cipher_mode,
-                padding_method=padding_method,
-                iv_nonce=iv_nonce,
-                auth_additional_data=auth_additional_data,
-                auth_tag_length=auth_tag_length
-            )
+            try:
+                return self._encrypt_symmetric(
+                    encryption_algorithm,
+                    encryption_key,
+                    plain_text,
+                    cipher_mode=cipher_mode,
+                    padding_method=padding_method,
+                    iv_nonce=iv_nonce,
+                    auth_additional_data=auth_additional_data,
+                    auth_tag_length=auth_tag_length
+                )
+            except exceptions.KmipError:
+                raise
+            except Exception as e:
+                # Errors raised by the cryptographic backend (e.g., an IV
+                # of the wrong length, a mode the cipher does not support).
+                self.logger.exception(e)
+                raise exceptions.CryptographicFailure(
+                    "The data could not be encrypted with the specified "
+                    "parameters."
+                )
 
     def _encrypt_symmetric(
             self,
@@ -731,16 +742,28 @@ class CryptographyEngine(api.CryptographicEngine):
                 hashing_algorithm=hashing_algorithm
             )
         else:
-            return self._decrypt_symmetric(
-                decryption_algorithm,
-                decryption_key,
-                cipher_text,
-                cipher_mode=cipher_mode,
-                padding_method=padding_method,
-                iv_nonce=iv_nonce,
-                auth_additional_data=auth_additional_data,
-                auth_tag=auth_tag
-            )
+            try:
+                return self._decrypt_symmetric(
+                    decryption_algorithm,
+                    decryption_key,
+                    cipher_text,
+                    cipher_mode=cipher_mode,
+                    padding_method=padding_method,
+                    iv_nonce=iv_nonce,
+                    auth_additional_data=auth_additional_data,
+                    auth_tag=auth_tag
+                )
+            except exceptions.KmipError:
+                raise
+            except Exception as e:
+                # Errors raised by the cryptographic backend (e.g., invalid
+                # padding, a cipher text that is not a multiple of the block
+                # size, an authentication tag that does not match).
+                self.logger.exception(e)
+                raise exceptions.CryptographicFailure(
+                    "The data could not be decrypted with the specified "
+                    "parameters."
+                )
 
     def _decrypt_symmetric(
             self,
